@@ -52,8 +52,11 @@ type nObj struct {
 	ETag string    `json:"etag"`          // "" = not available
 	Mod  time.Time `json:"mod"`           // zero = not available
 	Len  int64     `json:"len,omitempty"` // ContentLength handed to the backend double (never compared)
-	Cal  *nComp    `json:"cal,omitempty"`
-	Card nCard     `json:"card,omitempty"`
+	// Mono: the time handed to the backend double carries a monotonic-clock
+	// reading, as a backend's time.Now() would (same wall instant as Mod).
+	Mono bool   `json:"mono,omitempty"`
+	Cal  *nComp `json:"cal,omitempty"`
+	Card nCard  `json:"card,omitempty"`
 	// Fail != 0: the backend's Get for this path fails. 403/404/500... = an
 	// HTTP error with that status, 1 = a plain Go error (no status of its own).
 	Fail int `json:"fail,omitempty"`
@@ -69,6 +72,20 @@ type nColl struct {
 	HasComps bool        `json:"has_comps,omitempty"`
 	Comps    []string    `json:"comps,omitempty"`
 	Types    [][2]string `json:"types,omitempty"` // SupportedAddressData (content type, version)
+}
+
+// libTime is the modification time as handed to the library. time.Now is
+// used only to attach a monotonic reading; the wall instant is Mod exactly.
+func (o *nObj) libTime() time.Time {
+	if !o.Mono || o.Mod.IsZero() {
+		return o.Mod
+	}
+	now := time.Now()
+	t := now.Add(o.Mod.Sub(now))
+	if !t.Equal(o.Mod) {
+		return o.Mod // too far from now for a Duration
+	}
+	return t
 }
 
 func copyParams(p map[string][]string) map[string][]string {
